@@ -264,8 +264,9 @@ def _panel(case, ctx):
     if name == "muse" and cells == "A":
         cells = "S"            # known finding of C16 (array cells); not this property's business
     pos = name == "row_log"
-    Xtr, ytr, Atr = pzoo.make_panel(rng, 10, 2 if multi else 1, nt, cells=cells, positive=pos, plateaus=name == "plateau")
-    Xte, _, Ate = pzoo.make_panel(rng, 6, 2 if multi else 1, nt, cells=cells, positive=pos, plateaus=name == "plateau")
+    cidx = ["default", "default", "one-based", "offset"][case["dseed"] % 4] if cells == "S" else "default"
+    Xtr, ytr, Atr = pzoo.make_panel(rng, 10, 2 if multi else 1, nt, cells=cells, positive=pos, plateaus=name == "plateau", cell_index=cidx)
+    Xte, _, Ate = pzoo.make_panel(rng, 6, 2 if multi else 1, nt, cells=cells, positive=pos, plateaus=name == "plateau", cell_index=cidx)
     if case["container"] == "np":
         Xtr, Xte = Atr, Ate
     sup = name in pzoo.CLASSIFIERS or name in pzoo.REGRESSORS or name in pzoo.SUPERVISED_T
